@@ -141,6 +141,10 @@ func TamperCases(js []byte, r *vh.Rng) ([]Tamper, error) {
 				emit(l, "extend-1-byte", v+"00", false)
 				emit(l, "odd-length", v[:len(v)-1], false)
 				emit(l, "non-hex-char", "zz"+v[2:], false)
+				// the whole original value followed by something that is not hex (a decoder that hands back what it
+				// decoded before the error would still see the original bytes)
+				emit(l, "append-non-hex", v+"zz", false)
+				emit(l, "append-stray-nibble", v+"0", false)
 				emit(l, "empty", "", false)
 			} else {
 				emit(l, "substitute", v+"X", false)
